@@ -4,17 +4,14 @@ import GoNeat.Driver.Operators
 import GoNeat.Driver.Population
 import GoNeat.Driver.Activations
 import GoNeat.Driver.Solver
-<<<<<<< HEAD
 import GoNeat.Driver.Experiment
 import GoNeat.Driver.Stats
-
-namespace GoNeat.Driver
-def allOps : List (String × Handler) := geneticsOps ++ operatorOps ++ populationOps ++ activationsOps ++ solverOps ++ experimentOps ++ statsOps
-=======
 import GoNeat.Driver.Depth
 import GoNeat.Driver.Genesis
 
 namespace GoNeat.Driver
-def allOps : List (String × Handler) := geneticsOps ++ operatorOps ++ populationOps ++ activationsOps ++ solverOps ++ depthOps ++ genesisOps
->>>>>>> b-net
+def allOps : List (String × Handler) :=
+  geneticsOps ++ operatorOps ++ populationOps ++ activationsOps ++ solverOps
+  ++ experimentOps ++ statsOps
+  ++ depthOps ++ genesisOps
 end GoNeat.Driver
